@@ -58,7 +58,7 @@ func c08Restore(db *sql.DB, snap map[string][]byte) {
 }
 
 func TestVerifC08(t *testing.T) {
-	rep := newVerifReport("C08", "full matrix actor role (plain, admin by name, admin by directory group, automation admin) x session level (password, password+U2F) x target (self, other existing, other missing) x operation (U2F/TOTP token Update/Enable/Disable/Delete, register begin/finish for self/other, TOTP generate, profile view, users list/add/delete, bootstrap-OTP issue, automation-certificate mint for configured/unconfigured identity) x token index (target's valid, actor's, missing, negative); forbidden => >=400, all stored profiles byte-identical, no target data in response; allowed => the intended change only; admin memo re-evaluation with virtual time; automation admin alternating mint and administrator-only requests inside and across memo lifetimes; class = (role, level, target relation, operation, index kind, verdict)")
+	rep := newVerifReport("C08", "full matrix actor role (plain, admin by name, admin by directory group, automation admin) x session level (password, password+U2F) x target (self, other existing, other missing, own name in another case) x operation (U2F/TOTP token Update/Enable/Disable/Delete, register begin/finish for self/other, TOTP generate, profile view, users list/add/delete, bootstrap-OTP issue, automation-certificate mint for configured/unconfigured identity) x token index (target's valid, actor's, missing, negative); forbidden => >=400, all stored profiles byte-identical, no target data in response; allowed => the intended change only; admin memo re-evaluation with virtual time; automation admin alternating mint and administrator-only requests inside and across memo lifetimes; class = (role, level, target relation, operation, index kind, verdict)")
 	defer rep.Finish()
 	dir := newVerifDirectory(1)
 	for _, u := range []string{"alice", "bob", "root1", "grpadmin", "autoadm"} {
@@ -126,6 +126,8 @@ func TestVerifC08(t *testing.T) {
 			rel = "other"
 			if target == "ghost" {
 				rel = "missing"
+			} else if strings.EqualFold(target, actor.Name) {
+				rel = "case-variant-of-self"
 			}
 		}
 		role := "plain"
@@ -194,7 +196,8 @@ func TestVerifC08(t *testing.T) {
 	for _, actor := range actors {
 		for levelName, bits := range levels {
 			hasU2F := bits&verifBit["U2F"] != 0
-			for _, target := range []string{actor.Name, "bob", "ghost"} {
+			// (the last target differs from the actor's own name by case only: another account as far as the store is concerned)
+			for _, target := range []string{actor.Name, "bob", "ghost", strings.ToUpper(actor.Name[:1]) + actor.Name[1:]} {
 				if target == actor.Name && actor.Name != "alice" && actor.Name != "root1" {
 					continue // these actors own no tokens; self cells are covered by alice/root1
 				}
@@ -340,6 +343,16 @@ func TestVerifC08(t *testing.T) {
 		probe("removed,+4m59s(may persist)", "grpadmin", 200, true)
 		clk.Advance(2 * time.Second)
 		probe("removed,+5m01s,directory-answers", "grpadmin", 401, false)
+		// still not a member and the directory starts failing: the last real answer was "not an administrator"; an error
+		// must not bring the older, expired "administrator" verdict back
+		dir.SetAll("error")
+		clk.Advance(6 * time.Minute)
+		probe("removed,directory-erroring-after-it-said-no", "grpadmin", 401, false)
+		clk.Advance(6 * time.Minute)
+		probe("removed,directory-still-erroring", "grpadmin", 401, false)
+		dir.SetAll("up")
+		clk.Advance(6 * time.Minute)
+		probe("removed,directory-back", "grpadmin", 401, false)
 		// gains membership again; directory erroring: previous verdict (not admin) is kept
 		dir.SetGroups("grpadmin", []string{"km-admins"})
 		dir.SetAll("error")
@@ -418,5 +431,5 @@ func TestVerifC08(t *testing.T) {
 	rep.Floor("automation_admin_sequence_probes", 20)
 	rep.Floor("forbidden_cells", 300)
 	rep.Floor("allowed_cells", 100)
-	rep.Floor("admin_memo_probes", 7)
+	rep.Floor("admin_memo_probes", 10)
 }
